@@ -104,6 +104,31 @@ fn walk<const N: usize>() {
     cover!(n == 3, "three tags walked");
 }
 
+// @harness props=C09 tier=quick panic=allow must_panic=yes
+// @encodes Multiboot2Header::iter TagIter::<HeaderTagHeader>::next HeaderTagHeader::payload_len on headers whose tag walk meets a size below 8 or leaves the declared length
+// @bound fully symbolic 56-byte header with defined enumerated fields whose spec walk does NOT tile the tag area
+// @assume architecture, tag type, tag flags, console flags, relocation preference hold defined values (the property's precondition)
+#[cfg_attr(kani, kani::proof)]
+#[cfg_attr(kani, kani::unwind(8))]
+pub fn c09_walk_invalid_56() {
+    const N: usize = 56;
+    let b = header_region::<N>();
+    nd::assume(assume_defined_enums(&b).is_none());
+    let h = match hload(&b) {
+        Some(h) => h,
+        None => return,
+    };
+    let mut it = h.iter();
+    let mut i = 0;
+    while i < N / 8 {
+        if it.next().is_none() {
+            break;
+        }
+        i += 1;
+    }
+    noreturn!("a malformed tag size must lead to an error or a controlled panic, not to a completed walk");
+}
+
 macro_rules! getter_harness {
     ($fname:ident, $getter:ident, |$t:ident| $acc:expr) => {
         #[cfg_attr(kani, kani::proof)]
